@@ -306,9 +306,16 @@ fn run_crash_history(
                         detail: json!({"ops": crate::c_raw::ops_json(&ops), "mismatch": m.what}),
                     });
                 }
-                // any other functional divergence is C01/C13's business; stop this history
-                stats.stats.bump("history_aborted_on_model_mismatch");
-                return None;
+                // a broken extent invariant or reuse rule in the live state is C02's business, but
+                // what it does to the files after a crash is this property's: the byte model is
+                // still in step (it was applied before the layout was walked), so carry on
+                if m.sig.starts_with("layout|") || m.sig.starts_with("reuse|") {
+                    stats.stats.bump("live_layout_mismatch_carried_on");
+                } else {
+                    // any other functional divergence is C01/C13's business; stop this history
+                    stats.stats.bump("history_aborted_on_model_mismatch");
+                    return None;
+                }
             }
             let events = rec.drain();
             let flush_type = is_flush_type(&op);
@@ -492,6 +499,20 @@ pub fn directed_crash_histories() -> Vec<Vec<ROp>> {
             w("a", 6000), ROp::Flush,
             c("c"), w("c", 2000), ROp::RegionFlush("c".into()),
             ROp::Compact,
+        ],
+        // extents freed on both sides of a region that then outgrows its reserve, all within one
+        // flush epoch: the growth must not run over the extent freed behind it, whose release is
+        // not durable yet
+        vec![
+            c("x"), w("x", 100), c("a"), w("a", 100), c("b"), w("b", 3000), ROp::Flush,
+            ROp::Remove("x".into()), ROp::Remove("b".into()), w("a", 6000),
+            ROp::Flush, c("n"), w("n", 3000), ROp::Flush,
+        ],
+        // the same with the front extent freed by a relocation instead of a removal
+        vec![
+            c("x"), w("x", 100), c("a"), w("a", 100), c("b"), w("b", 3000), c("z"), w("z", 10), ROp::Flush,
+            w("x", 5000), ROp::Remove("z".into()), ROp::Remove("b".into()), w("a", 6000), w("a", 9000),
+            ROp::Flush, c("n"), w("n", 3000), ROp::Flush,
         ],
         // partially used reserves, freed + coalesced extents, compact
         vec![
